@@ -56,7 +56,11 @@ func handleSet(params internal.HandlerFuncParams) ([]byte, error) {
 		if !keyExists {
 			res = []byte("$-1\r\n")
 		} else {
-			res = []byte(fmt.Sprintf("+%v\r\n", params.GetValues(params.Context, []string{key})[key]))
+			oldValue := params.GetValues(params.Context, []string{key})[key]
+			if oldValue != nil && !isScalarValue(oldValue) {
+				return nil, fmt.Errorf("value at key %s is not a string", key)
+			}
+			res = []byte(fmt.Sprintf("+%v\r\n", oldValue))
 		}
 	}
 
@@ -122,6 +126,9 @@ func handleGet(params internal.HandlerFuncParams) ([]byte, error) {
 	}
 
 	value := params.GetValues(params.Context, []string{key})[key]
+	if value != nil && !isScalarValue(value) {
+		return nil, fmt.Errorf("value at key %s is not a string", key)
+	}
 
 	return []byte(fmt.Sprintf("+%v\r\n", value)), nil
 }
@@ -728,6 +735,9 @@ func handleGetdel(params internal.HandlerFuncParams) ([]byte, error) {
 	}
 
 	value := params.GetValues(params.Context, []string{key})[key]
+	if value != nil && !isScalarValue(value) {
+		return nil, fmt.Errorf("value at key %s is not a string", key)
+	}
 	delkey := keys.WriteKeys[0]
 	err = params.DeleteKey(params.Context, delkey)
 	if err != nil {
@@ -751,6 +761,9 @@ func handleGetex(params internal.HandlerFuncParams) ([]byte, error) {
 	}
 
 	value := params.GetValues(params.Context, []string{key})[key]
+	if value != nil && !isScalarValue(value) {
+		return nil, fmt.Errorf("value at key %s is not a string", key)
+	}
 
 	exkey := keys.WriteKeys[0]
 
